@@ -738,7 +738,8 @@ def main():
                       "Reals: the forgiving-factor theorems depend on the standard library's real-number axioms (ClassicalDedekindReals.sig_forall_dec, sig_not_dec, "
                       "FunctionalExtensionality.functional_extensionality_dep, Classical_Prop.classic), as Print Assumptions reports",
                       "recurrent and separable layers are not generated: their quantized counterparts do not build / convert under the pinned Keras 3 (C11, C12 findings)"]
-  return rep.finish(vlib.TRUSTED_COMMON + ["models AutoQ/Search.v, Forgiving.v, Size.v are hand-written; tie = the q_dict captured at the model_quantize call, the signs "
+  return rep.finish(vlib.TRUSTED_COMMON + ["translators tools/translate/{limitgen,sizegen,rolegen}.py regenerate coq/gen/{LimitGen,SizeGen,RoleGen}.v (_adjust_limit, _act_size, the role dispatch of _get_quantizer); the rest of _get_quantizer / quantize_model is tied by the captured q_dict",
+                                          "models AutoQ/Search.v, Forgiving.v, Size.v are hand-written; tie = the q_dict captured at the model_quantize call, the signs "
                                           "and order of delta(), and compute_model_size compared with the Coq models on every generated case"])
 
 
